@@ -3,7 +3,7 @@
 import json, os
 V = os.path.dirname(os.path.dirname(os.path.abspath(__file__)))
 props = [json.loads(l) for l in open(os.path.join(V, "properties.jsonl"))]
-TB = ("Trusts: Coq 8.16.1 kernel (vm_compute for finite sweeps, no native_compute); tools/translate.py (+probe, clang AST); "
+TB = ("Trusts: Coq 8.16.1 kernel (vm_compute for finite sweeps, no native_compute); tools/translate.py (+probe, clang AST; tools/sites.py translates every function body with clang's types); "
       "hand-written control-flow models tied only by the differential correspondence (harness/*.c under ASan/UBSan vs the "
       "ExtrOcamlBasic-extracted model in ocaml/driver); C integer semantics modelled in Z under stated range hypotheses.")
 CLAIMED = {
@@ -13,49 +13,57 @@ CLAIMED = {
          "modes, every parser applied to every classified frame returns (no fuel exhaustion), reads nothing outside the buffer or the "
          "library's own copies, and yields success or a negative code. PARTIAL: machine-level undefined behaviour below the model (misaligned "
          "typed loads, aliasing) is only observed by ASan/UBSan in the correspondence runs (exhaustive lengths 0..2, every truncation and "
-         "length/count perturbation of structured frames, mutation).",
-         "Rocq safety corollaries of read-oracle refinement proofs; sanitizer-instrumented differential correspondence"),
+         "length/count perturbation of structured frames, mutation)."
+         " Code level (tie #1 for control flow): c01_code_rsn_info_safe / c01_code_wpa_info_safe - the element decoders AS TRANSLATED from the C text of this run, with only the element readable, never get stuck (no load outside, no signed overflow) and every memcpy source lies inside the element.",
+         "Rocq safety corollaries of read-oracle refinement proofs; sanitizer-instrumented differential correspondence; theorems about the C bodies translated from the source on every run (Gen/Sites.v)"),
  "C02": ("Theorems c02_classify_plain / c02_classify_radiotap: for every byte string the classifier returns exactly the Spec's slices "
          "(radiotap length and FCS flag as decoded, frame control, header implied by type/subtype/order, body), c02_accept_iff, c02_layout "
          "(compiled header sizes 24/28/4/24/26, bit-field positions for all 65536 frame-control values, QoS subtype set), c02_data_extract. "
-         "Compared field by field with the library on frame-control x length grids crossed with radiotap prefixes and the FCS flag.",
-         "Rocq refinement proof to a slice spec over translator-regenerated layouts; differential correspondence"),
+         "Compared field by field with the library on frame-control x length grids crossed with radiotap prefixes and the FCS flag."
+         " Code level: c02_code_get_wifi_frame_refines_model - libwifi_get_wifi_frame as translated (both switches, bit-field loads), from arbitrary prior object contents, refines the model for every frame without radiotap.",
+         "Rocq refinement proof to a slice spec over translator-regenerated layouts; differential correspondence; theorems about the C bodies translated from the source on every run (Gen/Sites.v)"),
  "C03": ("Theorems c03_<generator> (13) and c03_images: for ALL argument values and ANY list of appended well-formed tags (or details) the "
          "model of create_*/add/dump - struct images built at the compiled offsets, tags through the C05 model - serialises exactly the "
          "hand-written 802.11 byte layout, for every buffer size, with the reported length equal to the byte count; RTS/CTS/ATIM images "
-         "are exact. Compared byte for byte with the library for all 16 generators under an injected clock.",
-         "Rocq algebraic proofs over translator-regenerated layouts; differential correspondence"),
+         "are exact. Compared byte for byte with the library for all 16 generators under an injected clock."
+         " Code level: c03_code_create_<17> - every generator as translated zeroes its whole object, stores the enumerators / arguments / defaults and adds its tags in order, for every environment; c03_code_length_routines.",
+         "Rocq algebraic proofs over translator-regenerated layouts; differential correspondence; theorems about the C bodies translated from the source on every run (Gen/Sites.v)"),
  "C07": ("Theorems c07_dump_object / c07_dump_action / c07_dump_tag: for EVERY object and EVERY caller buffer the sequence of checked "
          "writes either reports an error leaving the buffer untouched or writes exactly the reported bytes from the first byte and "
          "nothing beyond, never faulting; c07_radiotap_bound: for ALL 2^32 present words and <= 16 antennas the 120-byte staging area "
          "is never overrun (worst case 89 bytes, computed on the table as compiled) and the header is <= 128 bytes; c07_random_mac. "
-         "Every dump routine is run on every buffer size 0..len+2 in exactly sized heap blocks under ASan.",
-         "Rocq frame-rule proofs over a checked-write memory model; exhaustive buffer-size sweeps under ASan"),
+         "Every dump routine is run on every buffer size 0..len+2 in exactly sized heap blocks under ASan."
+         " Code level: c07_code_dump_<12 routines> / c07_code_dump_tag - the translated dump routines either return the error having copied nothing or fill [buf, buf + L) without gap, L <= buf_len.",
+         "Rocq frame-rule proofs over a checked-write memory model; exhaustive buffer-size sweeps under ASan; theorems about the C bodies translated from the source on every run (Gen/Sites.v)"),
  "C04": ("Theorems c04_bss_exact / c04_sta_exact / c04_reason_exact: on EVERY classified frame each of the nine parsers returns exactly the "
          "Spec (addresses, SSID bytes and hidden flag, channel of the last DS/HT element, byte-exact tag copy, zero elsewhere) with all reads "
          "inside its own copies; c04_other_subtype_refused; c04_flag_independent; six round-trip theorems: for all generator arguments and any "
          "neutral appended tags, classifying and parsing the generator's byte layout returns the arguments. All nine parsers are run on "
-         "generator-layout, crafted, truncated and radiotap/FCS-wrapped frames and compared field by field.",
-         "Rocq refinement + round-trip proofs; differential correspondence"),
+         "generator-layout, crafted, truncated and radiotap/FCS-wrapped frames and compared field by field."
+         " Code level: c04_code_parse_<9> - the parsers as translated refuse exactly on wrong type / subtype / too short, allocate once and copy exactly the bytes that follow the fixed parameters, reading only inside the body.",
+         "Rocq refinement + round-trip proofs; differential correspondence; theorems about the C bodies translated from the source on every run (Gen/Sites.v)"),
  "C05": ("Theorems c05_inv (every history of any length keeps the stored bytes a well-formed element sequence with the recorded length), "
          "c05_step_refines / c05_step_refines_total (add/remove/set/check agree with the reference list for EVERY list - the reference is "
          "total since the iterator reports empty elements), c05_spec_total, c05_enc_injective; "
          "the model of tag.c is run against the library on breadth-first histories (state-deduplicated) and long random histories, "
-         "comparing return value, length and bytes after every operation.",
-         "Rocq invariant-by-induction + refinement to an abstract list; differential histories"),
+         "comparing return value, length and bytes after every operation."
+         " Code level: c05_code_add_tag / _create_tag / _quick_add_tag - allocation, copies, recorded length and error paths of the translated routines for all lengths.",
+         "Rocq invariant-by-induction + refinement to an abstract list; differential histories; theorems about the C bodies translated from the source on every run (Gen/Sites.v)"),
  "C06": ("Theorem c06_iterate_exact: for every buffer and every read oracle that agrees with it inside its bounds (arbitrary or faulting "
          "outside) init + the do/while loop return exactly Spec.spec_iterate - termination and in-bounds reads included - plus soundness, "
          "order, maximality, completeness (c06_reports_all: EVERY element of the chain is reported, empty ones included), first-element "
          "refusal and a report bound on the Spec; iterator fields after every step "
-         "are compared with the library on exhaustive length-skeleton buffers and random buffers.",
-         "Rocq refinement proof over a read-oracle model; differential correspondence"),
+         "are compared with the library on exhaustive length-skeleton buffers and random buffers."
+         " Code level: c06_code_init_refines_model / c06_code_next_refines_model - libwifi_tag_iterator_init/_next AS TRANSLATED refine the read-oracle model on every buffer with only the buffer readable.",
+         "Rocq refinement proof over a read-oracle model; differential correspondence; theorems about the C bodies translated from the source on every run (Gen/Sites.v)"),
  "C08": ("Theorems c08_tables (the six selector->flag switches read from the source equal the documented tables for ALL selectors), "
          "c08_constants, c08_flags_exact, c08_rsn_decode_exact / c08_wpa_decode_exact (for elements of EVERY length: decoded fields equal the "
          "element bytes, lists are delimited by their declared counts with six suites kept, optional trailing fields may be absent, elements "
          "too short for their counts are refused, every read inside the element), c08_bss_exact (the four BSS parsers report exactly the "
          "Spec's summary incl. the WEP and WPS rules). Compared with the library on every single-suite element (256 selectors x kinds x "
-         "lists x OUIs), count/suite mismatches, truncation at every byte and random combinations.",
-         "Rocq refinement proofs + 256-selector table sweeps over translator-regenerated switch tables"),
+         "lists x OUIs), count/suite mismatches, truncation at every byte and random combinations."
+         " Code level: c08_code_rsn_info_return_refines_model / _wpa_ - the value returned by the translated decoders is the model's for every element.",
+         "Rocq refinement proofs + 256-selector table sweeps over translator-regenerated switch tables; theorems about the C bodies translated from the source on every run (Gen/Sites.v)"),
  "C09": ("Theorems c09_total (every byte string, any chain of present words / namespaces / vendor data: the decoder terminates in bounds), "
          "c09_refused (bad version, it_len < 8, > available, > 255), c09_length, c09_single_word (ALL 2^23 selections of the defined fields, all "
          "values, arbitrary padding/trailing bytes: the values at the specification's aligned little-endian offsets), c09_table (the table as "
@@ -63,26 +71,30 @@ CLAIMED = {
          "any length - namespace resets with per-antenna signal/antenna pairs, vendor namespaces with arbitrary skip lengths, vendor after "
          "vendor, empty continuation words: the decoder returns exactly the fold of the field semantics over the structurally computed "
          "aligned offsets), c09_chain_extends_single, c09_chain_decidable. The executable chain Spec is compared with the library on "
-         "generated chains.",
-         "Rocq refinement proof by induction over the field list; differential correspondence"),
+         "generated chains."
+         " Code level: c09_code_rtap_switch_field / _refines_spec / _header_guards / _loop_exit - every turn of the translated field switch reads the little-endian values at the field's sub-offsets and refines the Spec's per-field decoder (the iterator routines themselves, which contain goto, stay tied by the correspondence).",
+         "Rocq refinement proof by induction over the field list; differential correspondence; theorems about the C bodies translated from the source on every run (Gen/Sites.v)"),
  "C10": ("Theorems c10_layout (for ALL 2^11 selections of carried fields and all values the generator emits exactly the rendered header), "
          "c10_valid_header (version 0, length field = bytes produced, present word, every field little-endian at its naturally aligned "
          "offset, <= 128 bytes), c10_roundtrip (decoding it - whatever follows it - returns the supplied values, via C09's single-word "
          "theorem), c10_classify_invariant (prepending it, with an FCS when announced, leaves the classification unchanged up to the "
          "radiotap/FCS flags). The generator is compared byte for byte with the library on all 2^11 subsets x boundary and random values, "
-         "and the generated bytes are decoded again by the library.",
-         "Rocq algebraic + round-trip proofs by induction over the field list; differential correspondence"),
+         "and the generated bytes are decoded again by the library."
+         " Code level: c10_code_rtgen_c10_rtap / _layout - libwifi_create_radiotap as translated (loop over 23 field numbers by induction, alignment loaded from the table bytes) returns the Spec's length and fills the staging area without gap.",
+         "Rocq algebraic + round-trip proofs by induction over the field list; differential correspondence; theorems about the C bodies translated from the source on every run (Gen/Sites.v)"),
  "C11": ("Theorems c11_crc_exact (the C loop with constants re-read from the source computes the IEEE 802.3 32-stage division "
          "register, for every message and every in-bounds read oracle), c11_tbl_equiv (an independent table-driven CRC derived from G), "
          "c11_fcs_bytes, c11_verify_iff, c11_short_no, c11_burst_detected / c11_single_bit_detected (xoring ANY error pattern confined to <= 32 "
          "transmitted bits - a single bit included - into ANY valid frame of any length makes verification answer no). Compared with the library and with zlib on exhaustive short strings, the "
-         "single-bit basis, random strings up to 64 KiB, valid frames and all their single-bit flips.",
-         "Rocq refinement proof against a bit-serial register spec; differential correspondence"),
+         "single-bit basis, random strings up to 64 KiB, valid frames and all their single-bit flips."
+         " Code level: c11_code_crc32_refines_model (both loops by induction: the translated routine returns the model's CRC-32 of every message, reading only the message), c11_code_frame_verify_exec / _is_fcs_check.",
+         "Rocq refinement proof against a bit-serial register spec; differential correspondence; theorems about the C bodies translated from the source on every run (Gen/Sites.v)"),
  "C12": ("Theorems c12_recognise_iff, c12_message (all 65536 key-information values), c12_extract_exact, c12_key_data_length, "
          "c12_classified_ok: on every classified frame the EAPOL routines (offsets, switch table and cap re-read from the source) return "
          "exactly the big-endian fields at the standard offsets and the key data limited by declared length, cap and bytes present, with "
-         "every body read inside the library's copy. Compared with the library on key-information sweeps and length grids.",
-         "Rocq refinement proofs over a read-oracle model; differential correspondence"),
+         "every body read inside the library's copy. Compared with the library on key-information sweeps and length grids."
+         " Code level: c12_code_check_wpa_handshake(_refines_model), c12_code_get_wpa_data_safe / _refines_model ... - the translated EAPOL routines read only the body and equal the model.",
+         "Rocq refinement proofs over a read-oracle model; differential correspondence; theorems about the C bodies translated from the source on every run (Gen/Sites.v)"),
  "C13": ("Theorems c13_*_env_independent: classification, radiotap decode, tag iteration, CRC and FCS verification give the same result for "
          "ALL contents of memory beyond the buffer (read oracle arbitrary outside); parsers of a classified frame are functions of the "
          "frame value, output objects are built from zero records; c13_no_state_between_calls (no writable library state, from the current "
@@ -95,13 +107,15 @@ CLAIMED = {
          "classify + all parsers, and EVERY allocation-failure schedule, no step double-frees, uses a released or NULL block, and after the "
          "release routines no block is live. The skeleton's allocation trace (sizes, order, which block) is compared event by event with "
          "the --wrap ledger of the library. PARTIAL: the allocator "
-         "and ASan's detection are trusted.",
-         "Rocq invariant-by-induction over allocation skeletons; trace-level differential correspondence"),
+         "and ASan's detection are trusted."
+         " Code level: c14_code_add_action_detail / c14_code_free_action_detail - allocation and release arithmetic of the translated routines for all lengths.",
+         "Rocq invariant-by-induction over allocation skeletons; trace-level differential correspondence; theorems about the C bodies translated from the source on every run (Gen/Sites.v)"),
  "C15": ("Theorems c15_add_reported (a tag is reported stored iff stored; a failed add changes nothing and is -ENOMEM), c15_remove_safe, "
          "c15_set_atomic (a failed setter leaves the stored list exactly as it was), c15_detail_reported, "
          "c15_copy_parser_reported, plus C14's theorems for every schedule. Every allocation index of every scenario is failed in turn "
-         "(single failure and fail-from-k) and returns, crash class, stored bytes and ledger are compared with the skeleton.",
-         "Rocq proofs over failure schedules; exhaustive fault injection by link-time wrapping"),
+         "(single failure and fail-from-k) and returns, crash class, stored bytes and ledger are compared with the skeleton."
+         " Code level: c15_code_set_<6 setters> - the translated setters count, add, then remove last and only after a successful add, for every environment.",
+         "Rocq proofs over failure schedules; exhaustive fault injection by link-time wrapping; theorems about the C bodies translated from the source on every run (Gen/Sites.v)"),
  "C16": ("Theorem c16_no_writable_state: the list of writable / thread-local / COMMON data and function-local statics of the library's "
          "objects, re-derived from the current tree on every run (gcc + readelf), is empty; c16_interleaving / "
          "c16_schedules_indistinguishable: in a multi-thread semantics whose only shared component is that (empty) state, for ALL "
@@ -112,8 +126,9 @@ CLAIMED = {
          "(snprintf contract, tables re-read from the source on every run) stays inside the LIBWIFI_SECURITY_BUF_LEN-byte block and leaves "
          "a NUL-terminated string shorter than the buffer that is 'None' or the comma-separated names of exactly the set flags; c17_tables / "
          "c17_each_once: the tables are the documented flag-name association, single distinct bits, distinct names. Compared with the "
-         "library on exhaustive subsets (2^4, 2^13, 2^14; 2^21 thorough) into an exactly sized heap block.",
-         "Rocq generic invariant proof instantiated on translator-regenerated tables; differential correspondence"),
+         "library on exhaustive subsets (2^4, 2^13, 2^14; 2^21 thorough) into an exactly sized heap block."
+         " Code level: c17_code_get_<4>_calls - the translated routines call the item helper exactly once per set table flag in table order (induction over the list of ifs the body equals); tables equal Gen/Tables.v.",
+         "Rocq generic invariant proof instantiated on translator-regenerated tables; differential correspondence; theorems about the C bodies translated from the source on every run (Gen/Sites.v)"),
  "C18": ("Theorem c18_shapes: for all 15 published names, 8 argument-expression shapes and ALL 16-bit operand values, the macro - expanded "
          "token by token as the preprocessor does from the macro bodies as compiled, parsed with C precedence - is non-zero exactly when the "
          "IEEE-assigned bit is set in the value the argument denotes; c18_values / c18_distinct: enumerators equal the IEEE bit numbers and "
@@ -127,8 +142,9 @@ CLAIMED = {
          "Rocq table-equality sweeps lifted to all integers; translator-regenerated tables"),
  "C20": ("Theorems c20_defined / c20_monotone / c20_unit for all clock readings in range about the return expression of libwifi_get_epoch "
          "as re-translated from the source on every run; the extracted model is run against the real function under an injected clock on a "
-         "boundary grid and random pairs, and the timestamp bytes of generated beacons/probe responses/timing advertisements are compared.",
-         "Rocq proof over translated expression; differential correspondence under injected clock"),
+         "boundary grid and random pairs, and the timestamp bytes of generated beacons/probe responses/timing advertisements are compared."
+         " Code level: c20_code_epoch - the translated return expression with clang's conversions is sec * 10^6 + nsec / 1000.",
+         "Rocq proof over translated expression; differential correspondence under injected clock; theorems about the C bodies translated from the source on every run (Gen/Sites.v)"),
 }
 m = {"version": 1, "setup_cmd": "bin/setup",
      "hooks": {"guard": "LIBWIFI_VERIF",
@@ -137,7 +153,7 @@ m = {"version": 1, "setup_cmd": "bin/setup",
      "engines": [{"name": "rocq-model+correspondence", "path": "bin/check", "serves_properties": sorted(CLAIMED),
                   "kind_free_text": "Coq 8.16.1 theorems over models regenerated from / tied to /repo (translator + extracted-model differential harness)"}],
      "checks": [], "not_applicable": [],
-     "notes": "See DESIGN.md. known_findings.json lists genuine defects found (all currently fixed by 'fix:' commits in /repo)."}
+     "notes": "See DESIGN.md. known_findings.json lists genuine defects found (fixed by 'fix:' commits in /repo except the open finding F34)."}
 for p in props:
     pid = p["id"]
     if pid in CLAIMED:
